@@ -7,6 +7,7 @@ import (
 	"sort"
 	"time"
 
+	age "github.com/craterdog/go-collection-framework/v4/agent"
 	col "github.com/craterdog/go-collection-framework/v4/collection"
 	rt "github.com/craterdog/go-collection-framework/v4/verifrt"
 	"verif/checks/common"
@@ -238,6 +239,13 @@ func run[K comparable](r *engine.Rec, c *cfg[K]) {
 			}
 			if len(ia) != len(g) || (len(g) > 0 && !reflect.DeepEqual(pairs(ia), gpairs(g))) {
 				return viol(what+": iteration differs from the Go map", fmt.Sprint(pairs(ia), gpairs(g))), false
+			}
+			{
+				// two iterators alive at once, with a GetKeys call in between (whatever serves the views must not be shared)
+				type AL = col.AssociationLike[K, int]
+				if why := common.TwoLiveIterators[AL](func() age.IteratorLike[AL] { m.GetKeys(); return m.GetIterator() }, arr, false); why != "" {
+					return viol(what+": two iterators over one map influence each other", why), false
+				}
 			}
 			keys := m.GetKeys().AsArray()
 			seen := map[K]bool{}
